@@ -590,17 +590,24 @@ dt_conv_to_bizda(struct dt_d_s that)
 	switch (that.typ) {
 	case DT_BIZDA:
 		return that.bizda;
-	case DT_YMD:
-		break;
-	case DT_YMCW:
-		break;
-	case DT_DAISY:
-		break;
-	case DT_YD:
-		break;
 	case DT_DUNK:
-	default:
 		break;
+	default: {
+		/* go through ymd, count the business days up to the day;
+		 * Saturdays and Sundays have no bizda name */
+		dt_ymd_t tmp = dt_conv_to_ymd(that);
+		dt_bizda_param_t bp = {.bs = 0U};
+		int bd;
+
+		if (tmp.u && (bd = __ymd_get_bday(tmp, bp)) > 0) {
+			dt_bizda_t res = {.u = 0};
+			res.y = tmp.y;
+			res.m = tmp.m;
+			res.bd = bd;
+			return res;
+		}
+		break;
+	}
 	}
 	return (dt_bizda_t){.u = 0};
 }
